@@ -4,6 +4,8 @@
 // data plus a transform description, applying the described transform gives
 // bit-identical values to the ordinary decode, and everything else (other
 // attributes, faces, point maps) is unaffected.
+#include <dirent.h>
+
 #include "checks/roundtrip_oracle.h"
 #include "mc/alloc_env.h"
 
@@ -31,8 +33,9 @@ std::string att_map(const PointAttribute &a, uint32_t num_points) {
   return s;
 }
 
+void check_stream(const Bytes &stream_bytes, mc::Ctx &ctx, const std::string &klass, const std::string &ctxt_in);
+
 void check_case(const GeomDef &g, const EncCfg &cfg, mc::Ctx &ctx, const std::string &klass) {
-  auto sig = [&](const std::string &s) { return klass.empty() ? s : s + "|" + klass; };
   std::unique_ptr<Mesh> mesh;
   std::unique_ptr<PointCloud> cloud;
   if (g.is_mesh) mesh = build_mesh(g);
@@ -44,6 +47,12 @@ void check_case(const GeomDef &g, const EncCfg &cfg, mc::Ctx &ctx, const std::st
     ctx.count("encode_reported_failure");
     return;
   }
+  check_stream(enc.bytes, ctx, klass, text(g) + " " + text(cfg));
+}
+
+void check_stream(const Bytes &stream_bytes, mc::Ctx &ctx, const std::string &klass, const std::string &ctxt_in) {
+  auto sig = [&](const std::string &s) { return klass.empty() ? s : s + "|" + klass; };
+  struct { const Bytes &bytes; } enc{stream_bytes};
   DecResult normal = decode(enc.bytes);
   if (!normal.ok) {
     ctx.count("normal_decode_failed_(C01_matter)");
@@ -51,7 +60,7 @@ void check_case(const GeomDef &g, const EncCfg &cfg, mc::Ctx &ctx, const std::st
   }
   ctx.state(mc::hash_bytes(enc.bytes.data(), enc.bytes.size()));
   const uint32_t np = normal.pc->num_points();
-  const std::string ctxt = text(g) + " " + text(cfg);
+  const std::string ctxt = ctxt_in;
   // which types are present
   int present = 0;
   for (int i = 0; i < normal.pc->num_attributes(); ++i)
@@ -314,10 +323,50 @@ void add_cloud_space(mc::Runner &R, const std::string &name, int max_n, std::vec
   R.add(s);
 }
 
+// every testdata/*.drc (bitstream versions 1.1 .. 2.3): the legacy decode paths carry their own skip-transform code
+struct FileEntry {
+  std::string name;
+  Bytes bytes;
+};
+std::vector<FileEntry> g_files;
+void load_files() {
+  const char *repo = getenv("VERIF_REPO");
+  const std::string dir = std::string(repo ? repo : "/repo") + "/testdata";
+  std::vector<std::string> names;
+  if (DIR *d = opendir(dir.c_str())) {
+    while (dirent *de = readdir(d)) {
+      std::string n = de->d_name;
+      if (n.size() > 4 && n.substr(n.size() - 4) == ".drc") names.push_back(n);
+    }
+    closedir(d);
+  }
+  std::sort(names.begin(), names.end());
+  for (auto &n : names) {
+    std::ifstream f(dir + "/" + n, std::ios::binary);
+    Bytes b((std::istreambuf_iterator<char>(f)), std::istreambuf_iterator<char>());
+    if (b.size() >= 10) g_files.push_back({n, b});
+  }
+}
+void add_file_space(mc::Runner &R, const std::string &name) {
+  mc::Space s;
+  s.name = name;
+  s.size = g_files.size();
+  s.timeout_s = 120;
+  s.run = [](uint64_t idx, mc::Ctx &ctx) {
+    const FileEntry &f = g_files[idx];
+    ctx.count("legacy_or_shipped_files");
+    ctx.count("files_of_bitstream_v" + std::to_string(f.bytes[5]) + "." + std::to_string(f.bytes[6]));
+    check_stream(f.bytes, ctx, f.bytes[5] < 2 ? "bitstream<2.0" : "", "file " + f.name);
+  };
+  s.describe = [](uint64_t idx) { return "testdata/" + g_files[idx].name + " x every subset of the attribute types present"; };
+  R.add(s);
+}
+
 }  // namespace
 
 int main(int argc, char **argv) {
   mc::Runner R(argc, argv, "C10");
+  load_files();
   R.level = "model_checking";
   const bool asan = R.flag("asan");
   for (auto &t : gs::canonical_topologies(1, 5)) g_f1.add(t);
@@ -326,7 +375,7 @@ int main(int argc, char **argv) {
       "streams = every seam pattern (two-value per-corner attribute) on all triangle lists with F<=2 (up to relabelling) with quantized "
       "positions and a quantized tex-coord / quantized normal / integer second attribute x {sequential, Edgebreaker standard, valence} x "
       "split-on-seams x speed, and all point clouds with N<=4 points from a 3-value alphabet x 4 position kinds x 5 second attributes x "
-      "{sequential, kd-tree, automatic} x speeds; for each stream EVERY non-empty subset of the attribute types present is skipped; "
+      "{sequential, kd-tree, automatic} x speeds, plus every testdata/*.drc (bitstream 1.1..2.3); for each stream EVERY non-empty subset of the attribute types present is skipped; "
       "non-trivial = (stream, subset, attribute) triples where a described transform was applied and compared";
   R.explanation =
       "oracle: own implementation of the described transform (dequantization / octahedral decode) applied to the integer values of the "
@@ -341,6 +390,7 @@ int main(int argc, char **argv) {
     add_cloud_space(R, "cloud_N3", 3, {0, 4, 10}, true, false);
     add_cloud_space(R, "cloud_N4", 4, {0, 1, 2, 3, 4, 5, 6, 7, 8, 9, 10}, false, true);
   } else {
+    add_file_space(R, "asan_testdata_files");
     add_mesh_space(R, "asan_mesh_F1", &g_f1, {0, 6}, true, true);
     add_mesh_space(R, "asan_mesh_F2", &g_f2, {0, 6}, false, true);
     add_cloud_space(R, "asan_cloud_N2", 2, {0, 4, 10}, true, false);
